@@ -64,6 +64,16 @@ Instance(j) ==
              dir |-> IF d[21] % 6 = 0 THEN "min" ELSE "max"],
       rules |-> [i \in 1..nr |-> Pick(RulePal, d[22 + i])]]
 
+\* pinned witness of the recorded finding F65 (loopless FVA depends on the worker's previous tasks): R1 and R4
+\* are parallel reactions A -> B, i.e. an internal cycle; visited by every run, whatever the seed
+PinnedInst ==
+  [M |-> [rxns |-> [i \in 1..6 |-> RName(i)], mets |-> Mets,
+          S |-> << <<-1, 1, 0>>, <<0, 1, 0>>, <<1, 0, 0>>, <<-1, 1, 0>>, <<0, -1, 1>>, <<0, 0, -1>> >>,
+          lb |-> <<0, 0, -2, -2, -2, 0>>, ub |-> <<2, 2, 2, 2, 2, 3>>, c |-> <<0, 1, 0, 0, 0, 0>>, dir |-> "max"],
+   rules |-> << << <<"g2">> >>, << <<"g2">> >>, << <<"g1">>, <<"g4">> >>, << <<"g1">>, <<"g4">> >>, << <<"g4">> >>,
+               << <<"g1", "g2">> >> >>]
+InstanceOf(j) == IF j = 1 THEN PinnedInst ELSE Instance(j)
+
 GeneSeq(I) == SelectSeq(<<"g1", "g2", "g3", "g4">>, LAMBDA g : g \in GenesOf(I))
 
 \* ------------------------------------------------------------- call grids
@@ -93,19 +103,29 @@ PairCalls(U, r) ==
 SetCalls == <<Call(1, <<>>, <<>>, 0, TRUE)>>
             \o [q \in 1..(3 * NVar) |-> Call(((q - 1) % 3) + 1, <<>>, <<>>, q, TRUE)]
 
+\* parallel sampling: equal (seed, P, n, thinning) under different delay seeds must reproduce
+SCall(p, n, seed, thin, ds) == [P |-> p, n |-> n, seed |-> seed, thin |-> thin, ds |-> ds, l1 |-> <<>>, l2 |-> <<>>, dflt |-> TRUE]
+OptgpCalls(r) ==
+  LET s == 1 + (r % 499) IN
+  <<SCall(1, 6, s, 2, 0), SCall(2, 6, s, 2, 0), SCall(2, 6, s, 2, 3), SCall(3, 7, s, 1, 1), SCall(3, 7, s, 1, 4),
+    SCall(2, 5, s + 1, 2, 2), SCall(1, 6, s, 2, 5), SCall(3, 7, s, 1, 6)>>
+
 CallsOf(I, kind, r) ==
   LET U == IF kind \in GeneKinds THEN GeneSeq(I) ELSE I.M.rxns IN
-  CASE kind \in {"fva", "fva0", "lfva", "srd", "sgd", "blocked"} -> ListCalls(U, r)
+  CASE kind \in {"fva", "fva0", "lfva", "srd", "sgd", "blocked"} ->
+         ListCalls(U, r) \o (IF kind = "lfva" /\ I = PinnedInst
+                             THEN <<Call(3, <<"R4", "R1", "R5", "R6", "R3", "R2">>, <<>>, 3, FALSE)>> ELSE <<>>)
     [] kind \in {"drd", "dgd"} -> PairCalls(U, r)
+    [] kind = "optgp" -> OptgpCalls(r)
     [] OTHER -> SetCalls
 
 Case(j) ==
-  LET I == Instance(j) r == LCG((Seed * 31 + j * 17) % 65537) IN
+  LET I == InstanceOf(j) r == LCG((Seed * 31 + j * 17) % 65537) IN
   [k |-> j, inst |-> I,
    kinds |-> [q \in 1..Len(KindSeq) |-> [kind |-> KindSeq[q], calls |-> CallsOf(I, KindSeq[q], r + 101 * q)]]]
 
 \* (a .cfg cannot hold tuples: KindSeq <- one of these)
-KindsAll == <<"fva", "fva0", "lfva", "blocked", "essg", "essr", "srd", "sgd", "drd", "dgd">>
+KindsAll == <<"fva", "fva0", "lfva", "blocked", "essg", "essr", "srd", "sgd", "drd", "dgd", "optgp">>
 KindsCore == <<"fva", "blocked", "essg", "srd", "sgd", "drd", "dgd">>
 
 Init == k \in 1..NInst
